@@ -13,7 +13,7 @@ def check(ctx):
         "only after is_abandoned() and a second pop, the registry is filtered in place under its lock, and a danglings map exists only inside ActiveCollector; R4 the StartCollect insert must be conditional on the id not being "
         "finished already; R5 parked signals are visible to the collector (known finding K2); R6 CommitCollect / DropCollect "
         "go through force_send, which parks instead of dropping, and a parked command that meets a full ring on replay is put "
-        "back (a lost finish signal retains its trace's entry for ever).")
+        "back (a lost finish signal retains its trace's entry for ever). R7 StartCollect stays on the droppable send path (a parked start arrives after its commit was forgotten and its entry is never removed).")
     ctx.not_decided = ("that retained state IS bounded after every history (the rules pin down who grows and who shrinks "
                        "each container and on which paths; counting entries over histories is a runtime quantity).")
     facts = ctx.facts("E")
